@@ -132,7 +132,7 @@ func hdrHash(b int) []byte   { return []byte(fmt.Sprintf("header-%02d-%s", b, st
 func metaHash(k int) []byte  { return []byte(fmt.Sprintf("meta-%02d-%s", k, strings.Repeat("m", 20))) }
 func hdrRound(b int) uint64  { return uint64(1000 + b) }
 func hdrNonce(b int) uint64  { return uint64(2000 + b) }
-func metaNonce(k int) uint64 { return uint64(100 + k) }
+func metaNonce(k int) uint64 { return uint64(k) } // meta block 1 has nonce 1: the lowest nonce whose ShardInfo counts
 
 func (w *world) record(in M) {
 	b := vtrace.Int(in["b"])
